@@ -30,7 +30,10 @@ def run(ctx):
     def abstraction(s):
         out = []
         for c in s.q.ordered(s.q.calls()):
-            if s.on_obj(c):
+            # mutators of the wrapped object, plus the three reads every step is built around; further read-only queries (an extra
+            # recorded statistic) cannot change what the step does to the book and are judged, where they matter, by the recording rules
+            mut = bool(c.term.args) and c.term.args[0].place is not None and (c.term.args[0].place.ty or "").startswith("&mut")
+            if s.on_obj(c) and (mut or c.name in ("get_time", "level_2_data", "get_trade_vol", "get_trade_vols")):
                 out.append(c.name.replace("reset_trade_vols", "reset_trade_vol").replace("get_trade_vols", "get_trade_vol"))
         return out
     a, b = abstraction(shapes["Env"]), abstraction(shapes["MarketEnv"])
